@@ -105,6 +105,39 @@ impl JoinInput for JoinInputDefault {
 }
 
 ///
+/// An expression which reaches the macro as a `macro_rules!` fragment (`$e:expr`) is wrapped into a None-delimited
+/// group. The compiler doesn't treat such a group as parentheses when it parses the output of a procedural macro,
+/// so `v + $e` with `$e = 1 << 2` would become `v + 1 << 2`: every fragment which binds weaker than a method call
+/// gets real parentheses.
+///
+fn parenthesize_fragments(tokens: TokenStream) -> TokenStream {
+    use crate::parse::utils::is_lower_precedence_than_method_call;
+    use proc_macro2::{Delimiter, Group, TokenTree};
+
+    tokens
+        .into_iter()
+        .map(|token| match token {
+            TokenTree::Group(group) => {
+                let stream = parenthesize_fragments(group.stream());
+                let delimiter = if group.delimiter() == Delimiter::None
+                    && syn::parse2::<syn::Expr>(stream.clone())
+                        .map(|expr| is_lower_precedence_than_method_call(&expr))
+                        .unwrap_or(false)
+                {
+                    Delimiter::Parenthesis
+                } else {
+                    group.delimiter()
+                };
+                let mut new_group = Group::new(delimiter, stream);
+                new_group.set_span(group.span());
+                TokenTree::Group(new_group)
+            }
+            token => token,
+        })
+        .collect()
+}
+
+///
 /// Generates output of the `join!` macro based on parsed input and given config.
 ///
 pub fn generate_join<T: JoinInput<Chain = ActionExprChain, Handler = Handler>>(
@@ -130,7 +163,7 @@ pub fn generate_join<T: JoinInput<Chain = ActionExprChain, Handler = Handler>>(
     );
 
     match output {
-        Ok(output) => output.into_token_stream(),
+        Ok(output) => parenthesize_fragments(output.into_token_stream()),
         // A join which doesn't fit the macro (for ex. `then` handler of `try_join!`) is the caller's mistake:
         // report it as a compile error instead of a panic of the macro.
         Err(message) => quote::quote! {{
